@@ -487,7 +487,8 @@ enum Fmt {
     RouterBytes,
     /// TensorStore::snapshot_bytes → restore_from_bytes on a fresh store of the same dimension
     Bytes,
-    /// … on a store that already holds other data (restore must replace, not merge)
+    /// … on a store that already holds other data and has stored and deleted embeddings before
+    /// (restore must replace, not merge, and must not reuse state of the old content)
     BytesIntoDirty,
     /// TensorStore::save_snapshot_compressed(cfg) → load_snapshot_compressed
     Quant(QCfg),
@@ -529,7 +530,7 @@ fn tt_lengths(o: &Obs) -> BTreeSet<usize> {
 fn formats_for(orig: &Obs, level: Level) -> Vec<Fmt> {
     let mut f = match level {
         // RouterFile is the same code path as File (TensorStore::save_snapshot = router.save_to_file)
-        Level::Lean => vec![Fmt::File, Fmt::FilePlain, Fmt::RouterBytes, Fmt::Bytes, Fmt::Quant(QCfg::Plain), Fmt::Quant(QCfg::DeltaRle)],
+        Level::Lean => vec![Fmt::File, Fmt::FilePlain, Fmt::RouterBytes, Fmt::Bytes, Fmt::BytesIntoDirty, Fmt::Quant(QCfg::Plain), Fmt::Quant(QCfg::DeltaRle)],
         Level::Full => vec![Fmt::File, Fmt::FilePlain, Fmt::RouterFile, Fmt::RouterBytes, Fmt::Bytes, Fmt::BytesIntoDirty, Fmt::Quant(QCfg::Plain), Fmt::Quant(QCfg::DeltaRle)],
     };
     let l = tt_lengths(orig);
@@ -596,10 +597,14 @@ fn round_trip(s: &TensorStore, fmt: Fmt, dim: usize) -> Result<Loaded, (String, 
             let b = catch("save", || s.snapshot_bytes().map_err(|e| e.to_string()))?;
             let t = new_store(dim);
             if fmt == Fmt::BytesIntoDirty {
+                // a target with a history: its first embedding was stored and deleted again, so the
+                // lowest slab slot is free when the restore starts
+                t.put("emb:gone", data_of(&kind_fields("emb/dense-geo+tag", dim))).unwrap();
                 t.put("stale", data_of(&kind_fields("int-0", dim))).unwrap();
                 t.put("emb:stale", data_of(&kind_fields("emb/dense-ramp", dim))).unwrap();
                 t.put("_cache:stale", data_of(&kind_fields("int-0", dim))).unwrap();
                 t.put("k", data_of(&kind_fields("string-unicode", dim))).unwrap();
+                t.delete("emb:gone").unwrap();
             }
             catch("load", || t.restore_from_bytes(&b).map_err(|e| e.to_string()))?;
             Ok(Loaded::Store(t))
